@@ -185,6 +185,26 @@ def atomDeepEqual (a b : Key) : Bool :=
   | .opq t r, .opq t' r' => t == t' && r == r'
   | _, _ => false
 
+/-- XPath 3.1 §3.11.3.2 postfix lookup `E?(K)`: "for $e in E, $k in K return $e($k)" — one item `$e`
+(a map or an array, XPTY0004 otherwise) applied to one key `$k` as a function call (§3.11.1.? maps:
+map:get; arrays: array:get with an xs:integer position) -/
+def lookup1 (d : Dialect) (s : Store) (e : Item) (k : Key) : Except Err Seq :=
+  match e with
+  | .atom _ => .error .XPTY0004
+  | .ref a => match s[a]? with
+    | some (.map es) => .ok (d.mapGet es k)
+    | some (.arr ms) => do let p ← d.arrIndex k; d.arrGet ms p
+    | none => .error .XPTY0004
+
+def isMapOrArray (s : Store) : Item → Bool
+  | .atom _ => false
+  | .ref a => (s[a]?).isSome
+
+/-- `E?(K)`: for each item of `E` (in order), for each key of `K` (in order); the first error wins -/
+def lookupSeq (d : Dialect) (s : Store) (E : Seq) (K : List Key) : Except Err Seq :=
+  (E.mapM fun e =>
+    if isMapOrArray s e then (K.mapM (lookup1 d s e)).map List.flatten else .error .XPTY0004).map List.flatten
+
 /-- the interpreter skeleton of the model instantiated with the F&O definitions above -/
 def specDialect : Dialect where
   alias := false
